@@ -254,3 +254,25 @@ MUTANTS += [
     ("libpass bcrypt-sha256: verify keys the HMAC with the digest field", BP, "            password=self._prepare_secret(secret, info.salt),", "            password=self._prepare_secret(secret, info.hash),", "refute", "BcryptSHA256Hasher.verify"),
     ("libpass bcrypt: verify skips identification", BP, "        if not self.identify(hash):\n            return False\n        return bcrypt.checkpw(", "        return bcrypt.checkpw(", "refute", "BcryptHasher.verify"),
 ]
+
+
+# ---- libpass' str/bytes helpers: a bytes hash is read strictly (no byte is dropped on the way to the parser) --------------------
+UB = "libpass/_utils/bytes.py"
+CONTRACTS += [
+    Contract(
+        "libpass.as_str[bytes]", f"{UB}::as_str",
+        params={"value": Bytes()},
+        raises={"UnicodeDecodeError": None},
+        ensures=[("a bytes value is decoded strictly: the text encodes back to exactly the bytes given (undecodable input raises, nothing is skipped)", lambda it, env: U8(it.to_z3(env.lookup("result"))) == it.to_z3(env.lookup("value")))],
+        descr="every byte string",
+    ),
+    Contract(
+        "libpass.as_str[text]", f"{UB}::as_str", params={"value": Str()},
+        ensures=[("text passes through unchanged", "result == value")],
+    ),
+    Contract(
+        "libpass.as_bytes[text]", f"{UB}::as_bytes", params={"value": Str()},
+        ensures=[("text is encoded as UTF-8", lambda it, env: it.to_z3(env.lookup("result")) == U8(it.to_z3(env.lookup("value"))))],
+    ),
+]
+MUTANTS.append(("libpass as_str drops undecodable bytes", UB, 'return value.decode("utf8") if isinstance(value, bytes) else value', 'return value.decode("utf8", errors="ignore") if isinstance(value, bytes) else value', "refute", "as_str"))
